@@ -357,6 +357,9 @@ def parseOpts : Nat → List String → List (String × OptVal) → Option (List
 open S3db.Schema in
 partial def schemaStep (args : List String) : String :=
   match args with
+  | "create-malformed" :: rest =>
+    -- the text of the columns argument is malformed (trailing comma, keywords run together)
+    if schemaStep ("create" :: rest) == "bad-op" then "bad-op" else "reject"
   | "create-nostorage" :: rest =>
     -- the storage cannot be opened: whatever the definition, the CREATE is refused
     if schemaStep ("create" :: rest) == "bad-op" then "bad-op"
